@@ -32,6 +32,12 @@ def _classes(st):
         tm = [v for k, v in st.facts.items() if v[0] == "bool" and "TooManyHeaders" in repr(k)]
         if tm:
             return "too-many" if tm[0][1] else "parse-error"
+        # `match e { TooManyHeaders => .., other => .. }`: the error's variant is a discriminant fact
+        dv = st.facts.get(("discr", ("proj", term, (("v", "Err"), ("f", "0")))))
+        if dv and dv[0] in ("var", "nc"):
+            if dv[0] == "var":
+                return "too-many" if dv[1] == frozenset(["TooManyHeaders"]) else ("parse-error" if "TooManyHeaders" not in dv[1] else "error?")
+            return "parse-error" if "TooManyHeaders" in dv[1] else "error?"
         return "error?"
     status = st.facts.get(("discr", ("proj", term, (("v", "Ok"), ("f", "0")))))
     if status is None:
